@@ -70,7 +70,13 @@ def random_sessions(rng, n, G):
                 ops.append({"op": "serialize", "pres": container.item_pres(G, v, rng.choice(["rust", "named"]))})
             elif c < 0.7:
                 ops.append(json.loads(json.dumps(alpha[rng.choice(["f", "F"])])))
-            elif c < 0.85:
+            elif c < 0.76:
+                # Writer::serialize_all: several values in one call, sometimes with one in the middle that does not fit
+                ps = [container.item_pres(G, container.item_value(rng.randrange(1000), "s" * rng.randrange(4)), "rust") for _ in range(rng.randrange(0, 4))]
+                if rng.random() < 0.3:
+                    ps.insert(rng.randrange(len(ps) + 1), alpha[rng.choice(["f", "F"])]["pres"])
+                ops.append({"op": "serialize_all", "pres_list": ps})
+            elif c < 0.88:
                 vs = [container.item_value(rng.randrange(100), "q" * rng.randrange(3)) for _ in range(rng.randrange(0, 4))]
                 ops.append({"op": "push", "bytes": [b for v in vs for b in pyavro.encode(G, 1, v)], "n": len(vs)})
             else:
